@@ -312,6 +312,11 @@ func (l *PartitionLog) Flush(ctx context.Context) error {
 		l.flushCond.Wait()
 	}
 	artifact, err := l.prepareFlush()
+	// When there is nothing to drain (and no flush in flight: we waited above),
+	// every assigned offset is already in a committed segment. Read the offset to
+	// publish in this same critical section: read later, it would include batches
+	// appended in the meantime that are not in S3 yet.
+	current := l.nextOffset - 1
 	l.mu.Unlock()
 	if err != nil {
 		return err
@@ -325,9 +330,6 @@ func (l *PartitionLog) Flush(ctx context.Context) error {
 	if l.onFlush != nil {
 		target := artifact
 		if target == nil {
-			l.mu.Lock()
-			current := l.nextOffset - 1
-			l.mu.Unlock()
 			if current >= 0 {
 				target = &SegmentArtifact{LastOffset: current}
 			}
